@@ -280,6 +280,63 @@ def run(idx, rep, tier):
                         rep.refuted("index-alias", f"{ci.name}.__getitem__", f"`{nospace(cmp_)}` compares two integer indices as given: a negative and a non-negative index that name the same "
                                     f"position ({ci.name}[-1, n-1]) compare unequal", detail="raw-compare", locs=[idx.loc(g.module, cmp_)])
     rep.count("index-alias", proved=n_getitem)
+    # ---- 3a'. AXIS ROLES of index variables: in `A[r, c]` the first component indexes rows (axis 0), the second columns (axis 1); the role
+    # is inherited through zip-iteration and plain copies.  An index of one axis is never reduced modulo / compared with the LENGTH of
+    # the other axis (on a non-square operator two different columns would be identified, or a valid index rejected).
+    n_axis = 0
+    for ci in idx.operator_classes():
+        g = ci.methods.get("__getitem__")
+        if g is None:
+            continue
+        for case in [c for m_ in df.body_nodes(g.node) if isinstance(m_, ast.Match) for c in m_.cases]:
+            pat = case.pattern
+            if not (isinstance(pat, ast.MatchSequence) and len(pat.patterns) == 2):
+                continue
+            role = {}
+            for ax, sub in enumerate(pat.patterns):
+                for q in ast.walk(sub):
+                    if isinstance(q, ast.MatchAs) and q.name:
+                        role[q.name] = ax
+            changed = True
+            while changed:
+                changed = False
+                for n in [x for st in case.body for x in ast.walk(st)]:
+                    if isinstance(n, (ast.For, ast.comprehension)) and isinstance(n.target, ast.Tuple) and isinstance(n.iter, ast.Call) and isinstance(n.iter.func, ast.Name) and n.iter.func.id == "zip":
+                        for t, a_ in zip(n.target.elts, n.iter.args):
+                            if isinstance(t, ast.Name) and isinstance(a_, ast.Name) and a_.id in role and role.get(t.id) != role[a_.id]:
+                                role[t.id] = role[a_.id]
+                                changed = True
+                    elif isinstance(n, (ast.For, ast.comprehension)) and isinstance(n.target, ast.Name) and isinstance(n.iter, ast.Name) and n.iter.id in role and role.get(n.target.id) != role[n.iter.id]:
+                        role[n.target.id] = role[n.iter.id]
+                        changed = True
+                    elif isinstance(n, ast.Assign) and len(n.targets) == 1 and isinstance(n.targets[0], ast.Name) and isinstance(n.value, ast.Name) and n.value.id in role \
+                            and role.get(n.targets[0].id) != role[n.value.id]:
+                        role[n.targets[0].id] = role[n.value.id]
+                        changed = True
+
+            def axis_of_length(e):
+                """self.shape[k] (k = 0, 1, -1, -2) -> axis"""
+                if isinstance(e, ast.Subscript) and nospace(e.value) == "self.shape":
+                    k = e.slice
+                    v = k.value if isinstance(k, ast.Constant) else (-k.operand.value if isinstance(k, ast.UnaryOp) and isinstance(k.op, ast.USub) and isinstance(k.operand, ast.Constant) else None)
+                    return {0: 0, 1: 1, -1: 1, -2: 0}.get(v)
+                return None
+            for n in [x for st in case.body for x in ast.walk(st)]:
+                pairs = []
+                if isinstance(n, ast.BinOp) and isinstance(n.op, ast.Mod):
+                    pairs.append((n.left, n.right, "reduced modulo"))
+                elif isinstance(n, ast.Compare) and len(n.ops) == 1 and isinstance(n.ops[0], (ast.Lt, ast.LtE, ast.Gt, ast.GtE)):
+                    pairs += [(n.left, n.comparators[0], "compared with"), (n.comparators[0], n.left, "compared with")]
+                for idx_e, len_e, what in pairs:
+                    ax = axis_of_length(len_e)
+                    if isinstance(idx_e, ast.UnaryOp):
+                        idx_e = idx_e.operand
+                    if ax is None or not isinstance(idx_e, ast.Name) or idx_e.id not in role:
+                        continue
+                    n_axis += 1
+                    ok = role[idx_e.id] == ax
+                    rep.decide(ok, "index-alias", f"{ci.name}.__getitem__:axis#{n_axis}", f"`{nospace(n)}`: an index of axis {role[idx_e.id]} is {what} the length of axis {ax}" +
+                               ("" if ok else ": on a non-square operator different positions are identified (or valid ones rejected)"), detail="" if ok else "wrong-axis", locs=[idx.loc(g.module, n)])
     # ---- 3b. SLICE-ROLE: wherever the stored index objects are materialised (arange(N)[s], s.indices(N)), N is the parent's dimension
     from sa.slicerole import slice_role_obligations
     core = frozenset(idx.core_modules())
